@@ -26,6 +26,8 @@ if dirty.strip():
     sys.exit(1)
 sh(["git", "fetch", "-q", f"{sb}/verif", pid], check=True)
 ours_kf = json.load(open(os.path.join(ROOT, "known_findings.json")))
+HK = os.path.join(ROOT, "tools", "conf", "hooks.json")
+ours_hk = json.load(open(HK)) if os.path.exists(HK) else []
 FL = os.path.join(ROOT, "tools", "conf", "floors.json")
 ours_fl = json.load(open(FL)) if os.path.exists(FL) else {}
 rc, theirs_fl_txt = sh(["git", "show", "FETCH_HEAD:tools/conf/floors.json"])
@@ -39,7 +41,7 @@ if rc != 0 and "CONFLICT" not in out:
     sys.exit(1)
 rc, st = sh(["git", "diff", "--name-only", "--diff-filter=U"])
 conflicts = [l for l in st.splitlines() if l.strip()]
-auto = {"known_findings.json", "MANIFEST.json", "lean/LinfaSpec/Props/All.lean", "tools/conf/floors.json", "seeded/results.json"}
+auto = {"tools/conf/hooks.json", "known_findings.json", "MANIFEST.json", "lean/LinfaSpec/Props/All.lean", "tools/conf/floors.json", "seeded/results.json"}
 hard = [c for c in conflicts if c not in auto and not c.startswith("evidence/")]
 if hard:
     print("UNRESOLVED conflicts:", hard)
@@ -59,6 +61,8 @@ json.dump(ours_kf, open(os.path.join(ROOT, "known_findings.json"), "w"), indent=
 for k, v in theirs_fl.items():
     if k == pid[:3] or k not in ours_fl:
         ours_fl[k] = v
+# hook commit list: ours (the builder's new hooks are appended by tools/pick_repo.py with their /repo hashes)
+json.dump(ours_hk, open(HK, "w"))
 if ours_fl:
     json.dump(ours_fl, open(FL, "w"), indent=1, sort_keys=True)
 if "seeded/results.json" in conflicts:
